@@ -253,7 +253,12 @@ func hashTableOf(w *World, tb *TB, tableSym, field string) (map[int]string, map[
 	}
 	for i, el := range lit.Elems {
 		if el == nil || el.Kind != "struct" {
+			// the element is built by a helper (newHMACPool(sha1.New)): read the package initialiser's store
 			res[i] = "?"
+			if name, key, ok := hashEntryFromInit(w, tb, tableSym, field, i); ok {
+				res[i] = name
+				keyOK[i] = key
+			}
 			continue
 		}
 		fl := el.Field(field)
@@ -285,6 +290,87 @@ func hashTableOf(w *World, tb *TB, tableSym, field string) (map[int]string, map[
 		}
 	}
 	return res, keyOK, nil
+}
+
+// hashEntryFromInit: element i of the constructor table as the package initialiser stores it: the value stored at
+// table[i] (whole struct, helper calls expanded) or table[i].field; its constructor closure, with captures bound,
+// must return hmac.New(<hash constructor>, key).
+func hashEntryFromInit(w *World, tb *TB, tableSym, field string, i int) (string, bool, bool) {
+	var ft *Term
+	// the initialiser may fill a local array and store it into the table as a whole
+	tmp := map[ssa.Value]bool{}
+	for _, f := range w.ModuleFuncs(OtpPath) {
+		if !isInit(f) {
+			continue
+		}
+		EachInstr(f, func(in ssa.Instruction) {
+			if st, ok := in.(*ssa.Store); ok {
+				if g, isG := st.Addr.(*ssa.Global); isG && valID(g) == tableSym {
+					if ld, isLd := st.Val.(*ssa.UnOp); isLd && ld.Op == token.MUL {
+						if a, isA := ld.X.(*ssa.Alloc); isA {
+							tmp[a] = true
+						}
+					}
+				}
+			}
+		})
+	}
+	for _, f := range w.ModuleFuncs(OtpPath) {
+		if !isInit(f) {
+			continue
+		}
+		EachInstr(f, func(in ssa.Instruction) {
+			st, ok := in.(*ssa.Store)
+			if !ok {
+				return
+			}
+			at := tb.Of(st.Addr)
+			// iaddr(table; const(i))   or   faddr(field; iaddr(table; const(i))), table = the global or the local array stored into it
+			isElem := func(x *Term) bool {
+				if x.Op != "iaddr" || len(x.Args) != 2 || !x.Args[1].IsConst() || x.Args[1].Sym != fmt.Sprint(i) {
+					return false
+				}
+				r := x.Args[0]
+				return (r.Op == "global" && r.Sym == tableSym) || (r.Op == "alloc" && r.Val != nil && tmp[r.Val])
+			}
+			switch {
+			case isElem(at):
+				v := tb.Expand(tb.Of(st.Val), 2)
+				if v.Op == "struct" || v.Op == "structover" {
+					ft = tb.fieldOf(v, field, nil)
+				}
+			case at.Op == "faddr" && at.Sym == field && len(at.Args) == 1 && isElem(at.Args[0]):
+				ft = tb.Of(st.Val)
+			}
+		})
+	}
+	if ft == nil {
+		return "", false, false
+	}
+	var fn *ssa.Function
+	var free []*Term
+	switch ft.Op {
+	case "closure":
+		if mc, ok := ft.Val.(*ssa.MakeClosure); ok {
+			fn, _ = mc.Fn.(*ssa.Function)
+			free = ft.Args
+		}
+	case "fn":
+		fn, _ = ft.Val.(*ssa.Function)
+	}
+	if fn == nil || len(fn.Params) != 1 {
+		return "", false, false
+	}
+	key := mk("param", fmt.Sprintf("%s#0", FuncName(fn)))
+	r := tb.Results(fn, []*Term{key}, free, 0)
+	if len(r) != 1 {
+		return "", false, false
+	}
+	t := r[0]
+	if t.Op == "call" && t.Sym == "crypto/hmac.New" && len(t.Args) == 2 && t.Args[0].Op == "fn" {
+		return t.Args[0].Sym, t.Args[1].String() == key.String(), true
+	}
+	return "?" + clip(t.String(), 80), false, true
 }
 
 var wantHash = map[int64]string{0: "crypto/sha1.New", 1: "crypto/sha256.New", 2: "crypto/sha512.New"}
